@@ -387,6 +387,76 @@ func checkC09(rep *core.Report) {
 			r7.Undecided(rel+":disk-type", token.NoPos, "on-disk type of the template cache not resolved")
 		}
 	}
+	// a set whose declared length is exactly its header (no body) is skipped like any other set that yields nothing;
+	// only a declared length smaller than the header is fatal (the skip could not be computed). Rejecting length 4
+	// turns an empty set into the loss of every neighbouring set of the datagram.
+	r8 := rep.Rule("R09.8", "the set decoder's fatal length guard rejects declared lengths 0..3 and accepts 4 (a header-only set) and more", 2)
+	for _, rel := range []string{"ipfix", "netflow/v9"} {
+		var fn *ssa.Function
+		for _, f := range rep.Prog.RepoFuncs() {
+			if core.PkgRel(f) == rel && f.Name() == "decodeSet" {
+				fn = f
+			}
+		}
+		if fn == nil {
+			r8.Undecided(rel+":decodeSet", token.NoPos, "set decoder not found")
+			continue
+		}
+		fatalAt := func(n int64) (bool, token.Pos) {
+			valOf := func(v ssa.Value) (int64, bool) {
+				if ld, ok := v.(*ssa.UnOp); ok && ld.Op == token.MUL {
+					if fa, ok := ld.X.(*ssa.FieldAddr); ok {
+						if _, fld, _ := core.FieldOf(fa); fld != nil && fld.Name() == "Length" {
+							return n, true
+						}
+					}
+				}
+				return 0, false
+			}
+			for _, b := range fn.Blocks {
+				if len(b.Instrs) == 0 {
+					continue
+				}
+				iff, ok := b.Instrs[len(b.Instrs)-1].(*ssa.If)
+				if !ok {
+					continue
+				}
+				v, known := foldCondV(iff.Cond, valOf, 0)
+				if !known {
+					continue
+				}
+				t := b.Succs[1]
+				if v {
+					t = b.Succs[0]
+				}
+				if len(t.Instrs) > 0 && len(t.Instrs) <= 3 {
+					if r, ok := t.Instrs[len(t.Instrs)-1].(*ssa.Return); ok && len(r.Results) > 0 && isErrorType(r.Results[len(r.Results)-1].Type()) {
+						if c, isC := r.Results[len(r.Results)-1].(*ssa.Const); !isC || c.Value != nil {
+							return true, iff.Pos()
+						}
+					}
+				}
+			}
+			return false, fn.Pos()
+		}
+		name := core.FuncName(fn)
+		lo, pos := true, fn.Pos()
+		for n := int64(0); n < 4; n++ {
+			f, p := fatalAt(n)
+			lo = lo && f
+			if f {
+				pos = p
+			}
+		}
+		r8.Check(lo, name+":shorter-than-header-is-fatal", pos, "declared lengths 0..3 return an error at the guard", "a declared set length below the header size is not rejected at the guard")
+		hi := true
+		for _, n := range []int64{4, 5, 8, 1500, 65535} {
+			if f, p := fatalAt(n); f {
+				hi, pos = false, p
+			}
+		}
+		r8.Check(hi, name+":header-only-set-accepted", pos, "declared lengths 4, 5, 8, 1500, 65535 pass the guard", "a set with a declared length of 4 or more (4 = header only, nothing to decode) is a fatal error: the whole datagram, with its other sets, is dropped")
+	}
 	r6 := rep.Rule("R09.6", "no reader method reads beyond the datagram's length, so a read that does not fit fails", 8)
 	{
 		prog := rep.Prog
